@@ -99,31 +99,48 @@ Definition syn_ok (e e' : string * string) : bool :=
   | _, _ => false
   end.
 
-Definition all_syn_ok : bool :=
-  let cs := map (fun e => (e, canon (fst e))) opcode_table in
+Definition all_syn_ok_on (tbl : list (string * string)) : bool :=
+  let cs := map (fun e => (e, canon (fst e))) tbl in
   forallb (fun a => forallb (fun b => if canon_eqb (snd a) (snd b) then syn_ok (fst a) (fst b) else true) cs) cs.
 
-Lemma all_syn_ok_true : all_syn_ok = true.
+(* generic in the table, so that no proof step ever has to unfold the 252 entries *)
+Lemma all_syn_ok_on_spec tbl : all_syn_ok_on tbl = true ->
+  forall e e', In e tbl -> In e' tbl -> canon_eqb (canon (fst e)) (canon (fst e')) = true -> syn_ok e e' = true.
+Proof.
+  unfold all_syn_ok_on. intros A e e' I1 I2 C.
+  rewrite forallb_forall in A.
+  assert (J1 : In (e, canon (fst e)) (map (fun e => (e, canon (fst e))) tbl)) by (apply in_map_iff; exists e; auto).
+  assert (J2 : In (e', canon (fst e')) (map (fun e => (e, canon (fst e))) tbl)) by (apply in_map_iff; exists e'; auto).
+  specialize (A _ J1). rewrite forallb_forall in A. specialize (A _ J2).
+  cbn [fst snd] in A. rewrite C in A. exact A.
+Qed.
+
+Lemma all_syn_ok_true : all_syn_ok_on opcode_table = true.
 Proof. vm_compute. reflexivity. Qed.
+
+Lemma syn_ok_sound m pat m' pat' i ks :
+  syn_ok (m, pat) (m', pat') = true -> init_entry pat = Ok i -> shapes (stubs i) = Some ks ->
+  exists i', init_entry pat' = Ok i' /\ sigs_eqb (stubs i) (stubs i') = true /\
+    forall vals, Forall2 in_range ks vals ->
+      get_opcode (opcode_pattern i) (combine (stubs i) vals) = get_opcode (opcode_pattern i') (combine (stubs i') vals).
+Proof.
+  unfold syn_ok. cbn [snd]. intros A Hi Hs. rewrite Hi in A.
+  destruct (init_entry pat') as [i'| | |]; try discriminate.
+  apply andb_true_iff in A. destruct A as [A1 A2]. rewrite Hs in A2.
+  exists i'. split; [reflexivity|]. split; [exact A1|].
+  intros vals R. rewrite forallb_forall in A2. apply res_eqb_eq. apply A2. apply enum_complete. exact R.
+Qed.
 
 Theorem synonyms_plain m m' pat pat' ops addr :
   lookup_pat m opcode_table = Some pat -> lookup_pat m' opcode_table = Some pat' ->
   plain_syn m m' -> compile_insn m ops addr = compile_insn m' ops addr.
 Proof.
-  intros L L' P. pose proof all_syn_ok_true as A. unfold all_syn_ok in A.
-  rewrite forallb_forall in A.
-  specialize (A ((m, pat), canon m)). cbn [fst snd] in A.
-  assert (I1 : In ((m, pat), canon m) (map (fun e => (e, canon (fst e))) opcode_table))
-    by (apply in_map_iff; exists (m, pat); split; [reflexivity | apply lookup_pat_In; exact L]).
-  specialize (A I1). rewrite forallb_forall in A.
-  specialize (A ((m', pat'), canon m')). cbn [fst snd] in A.
-  assert (I2 : In ((m', pat'), canon m') (map (fun e => (e, canon (fst e))) opcode_table))
-    by (apply in_map_iff; exists (m', pat'); split; [reflexivity | apply lookup_pat_In; exact L']).
-  specialize (A I2). rewrite (canon_eqb_plain _ _ P) in A. unfold syn_ok in A. cbn [snd] in A.
+  intros L L' P.
+  pose proof (all_syn_ok_on_spec _ all_syn_ok_true (m, pat) (m', pat')
+                (lookup_pat_In _ _ _ L) (lookup_pat_In _ _ _ L') (canon_eqb_plain _ _ P)) as A.
   destruct (entry_fact_of_lookup _ _ L) as [i [name [pre [post [ks F]]]]].
-  unfold compile_insn. rewrite L, L'. rewrite (ef_init _ _ _ _ _ _ _ F) in *.
-  destruct (init_entry pat') as [i'| | |]; try discriminate.
-  apply andb_true_iff in A. destruct A as [A1 A2]. rewrite (ef_shapes _ _ _ _ _ _ _ F) in A2.
+  destruct (syn_ok_sound _ _ _ _ _ _ A (ef_init _ _ _ _ _ _ _ F) (ef_shapes _ _ _ _ _ _ _ F)) as [i' [Hi' [A1 A2]]].
+  unfold compile_insn. rewrite L, L', Hi', (ef_init _ _ _ _ _ _ _ F).
   cbn [bind]. unfold compile_with.
   destruct (enc_operands_sig _ _ ops addr [] A1) as [E Hl]. rewrite <- E, <- Hl.
   destruct (Nat.eqb (List.length ops) (List.length (stubs i))) eqn:Hlen; cbn [negb]; [|reflexivity].
@@ -131,8 +148,7 @@ Proof.
   destruct (enc_operands (stubs i) ops addr []) as [[vals ext]| | |] eqn:He; cbn [bind fst snd]; try reflexivity.
   pose proof (shapes_Forall2 _ _ (ef_shapes _ _ _ _ _ _ _ F)) as Hs.
   destruct (enc_operands_sound _ _ Hs _ _ _ _ _ Hlen He) as [R _].
-  rewrite forallb_forall in A2. specialize (A2 vals (enum_complete _ _ R)). apply res_eqb_eq in A2.
-  rewrite A2. reflexivity.
+  rewrite (A2 vals R). reflexivity.
 Qed.
 
 (* ------------------------------------------------------------------------------------------ *)
@@ -161,7 +177,7 @@ Proof.
   rewrite (compile_insn_entry _ _ _ _ Ep), (compile_insn_entry _ _ _ _ Em).
   pose proof (fun v => zrange_forallb 0 64 _ push_words v) as W. unfold opw in W. rewrite Ep, Em in W.
   open_entries Ep Em.
-  destruct (enc_regmode x (addr + 2 + 2 * 0)) as [[v e]| | |] eqn:E; cbn [bind fst snd]; try reflexivity.
+  destruct (enc_regmode x (addr + 2 + 2 * 0)) as [[v e]| | |] eqn:E; cbn [bind fst snd]; [|reflexivity..].
   change (enc_regmode (OAutoDec 6) (addr + 2 + 2 * Z.of_nat (Datatypes.length e))) with (@Ok (Z * list Z) (38, [])).
   cbn [bind fst snd]. rewrite app_nil_r.
   apply enc_regmode_sound in E. destruct E as [Hv _].
@@ -177,7 +193,7 @@ Proof.
   open_entries Ep Em.
   change (enc_regmode (OAutoInc 6) (addr + 2 + 2 * 0)) with (@Ok (Z * list Z) (22, [])).
   cbn [bind fst snd List.length Z.of_nat].
-  destruct (enc_regmode x (addr + 2 + 2 * 0)) as [[v e]| | |] eqn:E; cbn [bind fst snd]; try reflexivity.
+  destruct (enc_regmode x (addr + 2 + 2 * 0)) as [[v e]| | |] eqn:E; cbn [bind fst snd]; [|reflexivity..].
   apply enc_regmode_sound in E. destruct E as [Hv _].
   specialize (W v ltac:(lia)). apply res_eqb_eq in W. rewrite W. reflexivity.
 Qed.
@@ -191,7 +207,7 @@ Proof.
   open_entries Ep Em.
   change (enc_register (OReg 7)) with (@Ok (Z * list Z) (7, [])).
   cbn [bind fst snd List.length Z.of_nat].
-  destruct (enc_regmode x (addr + 2 + 2 * 0)) as [[v e]| | |] eqn:E; cbn [bind fst snd]; try reflexivity.
+  destruct (enc_regmode x (addr + 2 + 2 * 0)) as [[v e]| | |] eqn:E; cbn [bind fst snd]; [|reflexivity..].
   apply enc_regmode_sound in E. destruct E as [Hv _].
   specialize (W v ltac:(lia)). apply res_eqb_eq in W. rewrite W. reflexivity.
 Qed.
@@ -221,9 +237,9 @@ Qed.
 Theorem field_range_acc st n v e :
   enc_fpacc st (OAcc n) = Ok (v, e) -> 0 <= bitness st -> v = n /\ 0 <= n < 2 ^ bitness st /\ e = [].
 Proof.
-  unfold enc_fpacc. intros H Hb.
+  unfold enc_fpacc. intros H Hb. remember (2 ^ bitness st) as p.
   destruct ((0 <=? n) && (n <=? 5)) eqn:E; try discriminate.
-  destruct (n >=? 2 ^ bitness st) eqn:E2; inv H. lia.
+  destruct (n >=? p) eqn:E2; inversion H; subst v e. repeat split; lia.
 Qed.
 
 Theorem field_range_imm u b x f : 0 <= b -> enc_imm u b x = Ok f ->
